@@ -431,9 +431,15 @@ theorem fromPreHook_eq (w : World) (c : Cfg) (s : Script) :
   simp [fromPreHook, endState, finishedState, code, hookPre_current_snd, postPhase_current_snd,
     tryBody_exc, mapExit_current]
 
+/-- the world when the wait for the lock is cut short by Ctrl-C -/
+def interruptedSt (w : World) : St := { (St.init w).step with lockHeld := true, waited := true }
+
 theorem lockPhase_eq (w : World) (c : Cfg) :
-    lockPhase w c (St.init w) = if c.lock && w.lock == .broken then none else some (lockedSt w c) := by
-  unfold lockPhase lockedSt
+    lockPhase w c (St.init w) =
+      if c.lock && w.lock == .broken then .failed
+      else if c.lock && w.lock == .interrupted then .interrupted (interruptedSt w)
+      else .ok (lockedSt w c) := by
+  unfold lockPhase lockedSt interruptedSt
   cases c.lock <;> cases w.lock <;> simp [St.init, St.step] <;> rfl
 
 theorem artPhase_eq (w : World) (c : Cfg) :
@@ -443,20 +449,24 @@ theorem artPhase_eq (w : World) (c : Cfg) :
   rw [hr]
   cases c.art <;> cases w.baseOk <;> cases (w.runs.any fun x => x.name == w.now) <;> simp [hr]
 
-/-- the three ways the prologue can go -/
+/-- the four ways the prologue can go -/
 theorem entryPointW_eq (w : World) (c : Cfg) (s : Script) :
     entryPointW {} w c s =
       match startOf w c with
       | .noLock => (St.init w).final (.ret OSFILE)
+      | .lockWaitInterrupted => (interruptedSt w).final .escLockWait
       | .noArtDir => (lockedSt w c).final .escArt
       | .started => (endState w c s).final (.ret (code c s)) := by
   unfold entryPointW startOf
   rw [lockPhase_eq]
   cases h1 : (c.lock && w.lock == .broken)
   · simp only [Bool.false_eq_true, ↓reduceIte]
-    rw [artPhase_eq]
-    cases h2 : (c.art && (!w.baseOk || nameTaken w))
-    · simp only [Bool.false_eq_true, ↓reduceIte]; exact fromPreHook_eq w c s
+    cases h0 : (c.lock && w.lock == .interrupted)
+    · simp only [Bool.false_eq_true, ↓reduceIte]
+      rw [artPhase_eq]
+      cases h2 : (c.art && (!w.baseOk || nameTaken w))
+      · simp only [Bool.false_eq_true, ↓reduceIte]; exact fromPreHook_eq w c s
+      · simp
     · simp
   · simp
 
@@ -560,6 +570,48 @@ theorem started_trace (w : World) (c : Cfg) (s : Script) :
     St.step, runBody_trace, startSt, lockedSt, St.init, hl, hh, ha, hd, hf, hp, hq]
 
 /-! ### the benign world, and what the world changes -/
+
+theorem startOf_noLock (w : World) (c : Cfg) (h : startOf w c = .noLock) : c.lock = true ∧ w.lock = .broken := by
+  unfold startOf at h
+  by_cases h1 : (c.lock && w.lock == .broken) = true
+  · simpa using h1
+  · rw [if_neg h1] at h
+    split at h
+    · cases h
+    · split at h <;> cases h
+
+theorem startOf_interrupted (w : World) (c : Cfg) (h : startOf w c = .lockWaitInterrupted) :
+    c.lock = true ∧ w.lock = .interrupted := by
+  unfold startOf at h
+  by_cases h1 : (c.lock && w.lock == .broken) = true
+  · rw [if_pos h1] at h; cases h
+  · rw [if_neg h1] at h
+    by_cases h2 : (c.lock && w.lock == .interrupted) = true
+    · simpa using h2
+    · rw [if_neg h2] at h
+      split at h <;> cases h
+
+theorem startOf_started_fresh (w : World) (c : Cfg) (h : startOf w c = .started) (ha : c.art = true) :
+    (w.runs.any fun r => r.name == w.now) = false := by
+  unfold startOf at h
+  by_cases h1 : (c.lock && w.lock == .broken) = true
+  · rw [if_pos h1] at h; cases h
+  · rw [if_neg h1] at h
+    by_cases h2 : (c.lock && w.lock == .interrupted) = true
+    · rw [if_pos h2] at h; cases h
+    · rw [if_neg h2] at h
+      by_cases h3 : (c.art && (!w.baseOk || nameTaken w)) = true
+      · rw [if_pos h3] at h; cases h
+      · simp only [ha, Bool.true_and, Bool.or_eq_true, Bool.not_eq_eq_eq_not, Bool.not_true, not_or,
+          Bool.not_eq_false, Bool.not_eq_true] at h3
+        exact h3.2
+
+/-- the lock of the world only matters through `broken` / `interrupted` -/
+theorem startOf_busy_free (w : World) (c : Cfg) :
+    startOf { w with lock := .busy } c = startOf { w with lock := .free } c ∧
+    startOf { w with lock := .free } c ≠ .noLock ∧ startOf { w with lock := .free } c ≠ .lockWaitInterrupted := by
+  unfold startOf nameTaken
+  cases c.lock <;> simp <;> (repeat' split) <;> simp
 
 theorem startOf_benign (c : Cfg) : startOf {} c = .started := by
   unfold startOf nameTaken; cases c.lock <;> cases c.art <;> rfl
